@@ -157,6 +157,9 @@ def att_rewrites(text):
     dec = re.sub(r'(?<![\w%])(-?)0x([0-9a-f]+)', lambda k: k.group(1) + str(int(k.group(2), 16)), text)
     if dec != text:
         out.append(('att-number-base', dec))
+    if re.match(r'^set[a-z]+$', mn) and not mn.endswith('bb') and mn not in ('setb', 'setnb') or mn in ('setb', 'setnb'):
+        # the optional b suffix of setcc (setbb = setb with suffix)
+        out.append(('att-setcc-suffix', mn + 'b' + gap + ops))
     base = mn.rstrip('bwl') if mn not in ('xchg', 'test') else mn
     if base in ('xchg', 'test') and len(parts) == 2 and ('(' in ops or ':' in ops) and '$' not in ops:
         # both operand orders of xchg/test denote the same instruction (and GNU as encodes them identically)
@@ -183,6 +186,10 @@ def bracket_forms(part, asm):
                     groups.append(('constant-arithmetic', '[%s+%d]' % (ad, n), ['[%s+%d-%d]' % (ad, 2 * n, n), '[%s-%d+%d]' % (ad, n, 2 * n), '[%d+%s-%d]' % (2 * n, ad, n),
                                                                                '[%s+%d+%d]' % (ad, n // 2, n // 2), '[%s+%d-%d-%d]' % (ad, 4 * n, 2 * n, n)]))
                     groups.append(('constant-arithmetic', '[%s-%d]' % (ad, n), ['[%s-%d+%d]' % (ad, 2 * n, n), '[%s+%d-%d]' % (ad, n, 2 * n), '[%s-%d-%d]' % (ad, n // 2, n // 2)]))
+                if n == 4:
+                    # the outer displacement in the unsigned 32-bit convention plus a positive inner one (the sum wraps)
+                    groups.append(('outer-wrap', '[%s+4]' % ad, ['0xFFFFFFFC[%s+8]' % ad, '4294967292[%s+8]' % ad, '[%s+8+0xFFFFFFFC]' % ad, '0xFFFFFFFF[%s+5]' % ad,
+                                                                 '0xFFFFFF04[%s+0x100]' % ad]))
                 for kind, inside, variants in groups:
                     if kind == 'symbol' and n != 4:
                         continue
